@@ -426,7 +426,7 @@ func refuteAtParseTime(t *rapid.T, tk *Task) {
 }
 
 func genTask(t *rapid.T) Task {
-	kind := rapid.SampledFrom([]string{"solve", "solve", "cert-solve", "count", "enumerate-chan", "append-solve", "cp-solve", "cp-solve-heavy", "cp-solve-heavy", "cp-solve-wide", "cp-solve-wide", "solve-many", "solve-many", "opb-optimal", "optimal-chan", "wcnf", "maxsat-api", "unsat-subset", "mus-deletion", "mus-insertion", "mus-maxsat", "bf-solve", "bf-dimacs"}).Draw(t, "kind")
+	kind := rapid.SampledFrom([]string{"solve", "solve", "cert-solve", "count", "enumerate-chan", "append-solve", "cp-solve", "cp-solve-heavy", "cp-solve-heavy", "cp-solve-wide", "cp-solve-wide", "solve-many", "solve-many", "opb-optimal", "optimal-chan", "wcnf", "maxsat-api", "unsat-subset", "mus-deletion", "mus-insertion", "mus-maxsat", "bf-solve", "bf-dimacs", "bf-solve", "bf-dimacs"}).Draw(t, "kind")
 	tk := Task{Kind: kind}
 	switch kind {
 	case "solve", "cert-solve":
@@ -512,6 +512,15 @@ func genTask(t *rapid.T) Task {
 		}
 	default:
 		tk.F = gen.Formula(t, gen.FormulaOpts{MaxDepth: 4, Names: gen.NamePool(6), MaxGroup: 6, BigGroupsPos: true}, 0, 1)
+		if rapid.Bool().Draw(t, "withWideGroup") {
+			// an exactly-one group of 5..12 names next to the formula: the translation of such groups introduces
+			// auxiliary variables while the formula is *built*, which happens inside the task
+			g := &oracle.F{Op: "unique"}
+			for _, n := range gen.NamePool(12)[:gen.Uniform(t, 5, 12, "width")] {
+				g.Kids = append(g.Kids, oracle.V(n))
+			}
+			tk.F = &oracle.F{Op: rapid.SampledFrom([]string{"and", "or"}).Draw(t, "with"), Kids: []*oracle.F{tk.F, g}}
+		}
 	}
 	return tk
 }
